@@ -2505,6 +2505,7 @@ class Stream(AbstractStream):
                 f_l = F_l(x, T)
                 y = f_l / P
                 mol_v = F_mol_vapor * y
+                mol_v = np.where(mol_v > mol, mol, mol_v) # Cap at what is present (adding back a negative remainder loses digits)
                 vapor.imol[IDs] = mol_v
                 liquid.imol[IDs] = mol - mol_v 
                 index = liquid.mol.negative_index()
@@ -2517,6 +2518,7 @@ class Stream(AbstractStream):
             f_l = F_l(x, T)
             y = f_l / P
             mol_v = F_mol_vapor * y
+            mol_v = np.where(mol_v > mol, mol, mol_v) # Cap at what is present (adding back a negative remainder loses digits)
             vapor.imol[IDs] = mol_v
             liquid.imol[IDs] = mol - mol_v 
             index = liquid.mol.negative_index()
